@@ -598,6 +598,7 @@ Section Main.
 End Main.
 
 (* ---------------------------------------------------------------- path facts *)
+Set Default Timeout 20.
 Lemma initial_slashes_abs : forall p, isabs p = true -> exists k, initial_slashes p = S k.
 Proof.
   destruct p as [|c1 [|c2 [|c3 r]]]; cbn; intros H; try discriminate; rewrite H; eauto;
@@ -669,7 +670,7 @@ Section Cwd.
     includes isc fs cwd1 fuel stack file = includes isc fs cwd2 fuel stack file.
   Proof.
     intros cwd1 cwd2. induction fuel; intros stack file A. reflexivity.
-    rewrite !includes_unfold. rewrite (nrm_abs cwd1), (nrm_abs cwd2); auto.
+    rewrite !includes_unfold. rewrite (nrm_abs cwd1 file A), (nrm_abs cwd2 file A).
     destruct (fs_get fs (normpath (normpath file))); cbn [bind]; auto.
     destruct (mems (normpath (normpath file)) stack); auto.
     apply (proj2 (walks_ext _ _ _)). intros x _. apply IHfuel.
